@@ -308,6 +308,15 @@ PreludeOps ==
                               ann("a1", txt(0, 1), <<e("d1", IntVal(1)), e("d3", TypedVal("bool", 1, <<>>)), e("d5", NullVal), e("d7", TypedVal("float", 3, <<>>))>>),
                               ann("a2", txt(1, 2), <<e("d2", IntVal(1)), e("d4", TypedVal("bool", 1, <<>>)), e("d6", NullVal), e("d8", TypedVal("float", 3, <<>>))>>),
                               ann("a3", txt(0, 2), <<e("d9", TypedVal("bool", 0, <<>>)), DB(ById("s1"), ById("k2"), ById("d10"), IntVal(1)), e("d11", TypedVal("bool", 0, <<>>))>>)>>
+         \* 23: complex selectors over annotations with whole-target offsets in every alignment, whose members become consecutive
+         \*     when the annotation between them is removed and the store is reloaded (range compression on load must be lossless)
+         [] Prelude = 23 -> LET sub(i, o) == TB("Ann", ById(i), NoRef, o) IN
+                            <<[ev |-> "AddResource", a |-> [id |-> "r1", text |-> <<11, 12, 13, 14, 21>>]], addset,
+                              ann("a1", txt(0, 3), <<>>), ann("a2", txt(1, 4), <<>>), ann("a3", txt(2, 5), <<>>),
+                              ann("m1", Complex("Multi", <<sub("a1", Off("B", 0, "E", 0)), sub("a3", Off("B", 0, "E", 0))>>), <<>>),
+                              ann("m2", Complex("Composite", <<sub("a1", Off("E", -3, "E", 0)), sub("a3", Off("E", -3, "E", 0))>>), d1),
+                              ann("m3", Complex("Directional", <<sub("a1", Off("B", 0, "B", 3)), sub("a3", Off("B", 0, "B", 3))>>), <<>>),
+                              ann("m4", Complex("Multi", <<sub("a1", Off("B", 1, "E", 0)), sub("a3", Off("E", -3, "B", 3))>>), <<>>)>>
          \* 6: metadata annotations on keys/data/sets and annotations on annotations (chain + relative offset)
          [] OTHER -> <<addres, addset, ann("a1", txt(0, 2), d1),
                        ann("", TB("Key", ById("s1"), ById("k1"), NoOffset), <<>>),
@@ -610,16 +619,17 @@ LoadOps ==
             o \in {"del_target", "del_id", "del_data", "dup", "swap_next", "target_string", "target_null", "target_number", "target_array",
                    "type_unknown", "type_text_no_offset", "type_multi_empty", "type_multi_nested", "res_dangling", "self_target", "forward_target",
                    "offset_inverted", "cursor_type_unknown", "data_set_dangling", "data_string", "data_incomplete"}}
-    \cup {L("json", "ann", i, o, a) : i \in 1..Min2(NAnnDoc, 2), o \in {"tempid", "tempid_target", "data_tempid"}, a \in 0..7}
+    \cup {L("json", "ann", i, o, a) : i \in 1..Min2(NAnnDoc, 2), o \in {"tempid", "tempid_target", "data_tempid"}, a \in 0..9}
     \cup {L("json", "ann", 1, "offset", a) : a \in 0..8}
     \cup {L("json", "ann", i, "chain_offset", a) : i \in 1..Min2(NAnnDoc, 2), a \in 0..4}
     \cup {L("json", "ann", 2, o, a) : o \in {"offset_end", "offset_rel", "offset_rel_end"}, a \in 0..11}
     \cup {L("json", "ann", 1, "offset", a) : a \in 9..11}
     \cup {L("json", "ann", i, "multi_keys", a) : i \in 1..Min2(NAnnDoc, 2), a \in 0..2} \cup {L("json", "ann", 2, "multi_mixed", 0)}
-    \cup {L("json", "ann", i, "data_tempid_full", a) : i \in 1..Min2(NAnnDoc, 2), a \in 0..7}
-    \cup {L("json", "top", 1, "second_annotations", a) : a \in 0..7}
-    \cup {L("json", "set", 1, o, 0) : o \in {"key_dup", "key_null", "keys_string", "del_keys", "data_key_dangling", "value_type_unknown", "dup", "include_missing"}}
-    \cup {L("json", "set", 1, "data_tempid", a) : a \in 0..7} \cup {L("json", "set", 1, "data_value_deep", a) : a \in {0, 3, 40}}
+    \cup {L("json", "ann", i, "data_tempid_full", a) : i \in 1..Min2(NAnnDoc, 2), a \in 0..9}
+    \cup {L("json", "top", 1, "second_annotations", a) : a \in 0..9}
+    \cup {L("json", "set", 1, "second_data", a) : a \in 0..9}
+    \cup {L("json", "set", 1, o, 0) : o \in {"key_dup", "key_null", "keys_string", "del_keys", "data_key_dangling", "value_type_unknown", "dup", "include_missing", "include_self"}}
+    \cup {L("json", "set", 1, "data_tempid", a) : a \in 0..9} \cup {L("json", "set", 1, "data_value_deep", a) : a \in {0, 3, 40}}
     \cup {L("json", "res", 1, o, 0) : o \in {"del_text", "text_number", "id_number", "include_missing", "include_self", "dup"}}
     \cup {L("json", "top", 1, o, 0) : o \in {"type_wrong", "annotations_object", "resources_null", "extra_field", "include_self", "empty", "not_json", "deep_nesting"}}
     \cup {L("json", "top", 1, "truncate", a) : a \in 1..9}
